@@ -79,6 +79,80 @@ for _i in list(range(1, 15)) + [16, 17, 18, 19, 20, 21]:
     GROUPS['cog%d' % _i] = _cog(_i)
 
 
+def functions_group(relpath, outname, specs, inst_attrs=None, header_extra=''):
+    """specs: list of (coq_name, python function, [(pyarg, binding)], outputs) where binding is a free-variable name
+    (str), the string '@inst' for the instance object, or ('attr', name) to bind the argument to inst.<name>;
+    outputs: None (single value) or list of suffixes for a returned tuple."""
+    mod = Module(os.path.join(S, relpath))
+    text = HEADER % ('exactpack/solvers/' + relpath) + header_extra
+    js = {}
+    for coqname, fname, binds, outs in specs:
+        inst = Obj('', dict(inst_attrs or {}), frozen=False, name='inst')
+        argspec = []
+        args = []
+        for a, b in binds:
+            if b == '@inst':
+                argspec.append((a, inst))
+            elif isinstance(b, tuple) and b[0] == 'attr':
+                argspec.append((a, ('var', b[1])))
+            elif isinstance(b, tuple) and b[0] == 'const':
+                argspec.append((a, num(b[1])))
+            else:
+                argspec.append((a, b))
+                if b not in args:
+                    args.append(b)
+        ret, interp = translate_function(mod, fname, argspec)
+        if interp.raises:
+            raise Unsupported('%s.%s raises on some path' % (relpath, fname))
+        vals = [ret] if outs is None else list(ret)
+        names = [coqname] if outs is None else ['%s_%s' % (coqname, o) for o in outs]
+        if len(vals) != len(names):
+            raise Unsupported('%s.%s: returns %d values, expected %d' % (relpath, fname, len(vals), len(names)))
+        for nm, e in zip(names, vals):
+            if not is_expr(e):
+                raise Unsupported('%s.%s: result %s is not a scalar expression' % (relpath, fname, nm))
+            from py2coq import free_vars
+            fv = free_vars(e)
+            allargs = list(args) + [v for v in fv if v not in args]
+            text += '\n' + emit_function(nm, allargs, e, comment='%s(%s)' % (fname, ', '.join('%s=%s' % (a, b if isinstance(b, str) else b[1]) for a, b in binds)))
+            text += '#[global] Hint Unfold %s : epgen.\n' % nm
+            js[nm] = {'args': allargs, 'expr': expr_to_json(e), 'python': fname}
+    return {outname: (text, js)}
+
+
+IG = {'problem': 'igeos'}
+L4 = [('p', ('attr', 'pl')), ('r', ('attr', 'rl')), ('u', ('attr', 'ul')), ('g', ('attr', 'gl'))]
+R4 = [('p', ('attr', 'pr')), ('r', ('attr', 'rr')), ('u', ('attr', 'ur')), ('g', ('attr', 'gr'))]
+
+
+@group('riemann')
+def g_riemann():
+    I = ('inst', '@inst')
+    specs = [
+        ('rie_sound_speed', 'sound_speed', [('p', 'p'), ('r', 'r'), ('g', 'g'), I], None),
+        ('rie_sie', 'sie', [('p', 'p'), ('r', 'r'), ('g', 'g'), I], None),
+        ('rie_rarefaction', 'rarefaction', [('px', 'px'), ('p', 'p'), ('r', 'r'), ('u', 'u'), ('g', 'g'), I], None),
+        ('rie_shock', 'shock', [('px', 'px'), ('p', 'p'), ('r', 'r'), ('u', 'u'), ('g', 'g'), I], None),
+        ('rie_rho_star_shock', 'rho_star_shock', [('px', 'px'), ('p', 'p'), ('r', 'r'), ('g', 'g'), I], None),
+        ('rie_rho_star_rarefaction', 'rho_star_rarefaction', [('px', 'px'), ('p', 'p'), ('r', 'r'), ('g', 'g'), I], None),
+        ('rie_SCS_call', 'SCS_call', [('p', 'px'), I], None),
+        ('rie_SCR_call', 'SCR_call', [('p', 'px'), I], None),
+        ('rie_RCS_call', 'RCS_call', [('p', 'px'), I], None),
+        ('rie_RCR_call', 'RCR_call', [('p', 'px'), I], None),
+        # the fan and the shock speed as the driver calls them for the left and for the right state
+        ('rie_fanL', 'rho_p_u_rarefaction', L4 + [('x', 'x'), ('xd0', 'xd0'), ('t', 't'), I], ['rho', 'p', 'u']),
+        ('rie_fanR', 'rho_p_u_rarefaction', R4 + [('x', 'x'), ('xd0', 'xd0'), ('t', 't'), I], ['rho', 'p', 'u']),
+        ('rie_shock_velocityL', 'shock_velocity', [('px', 'px')] + L4 + [I], None),
+        ('rie_shock_velocityR', 'shock_velocity', [('px', 'px')] + R4 + [I], None),
+        ('rie_u_SCN', 'u_SCN', [('px', 'px'), I], None),
+        ('rie_u_NCS', 'u_NCS', [('px', 'px'), I], None),
+        ('rie_u_NCR', 'u_NCR', [('px', 'px'), I], None),
+        ('rie_u_RCN', 'u_RCN', [('px', 'px'), I], None),
+        ('rie_u_RCVR', 'u_RCVR', [('p', 'px'), I], None),
+    ]
+    return functions_group('riemann/utils.py', 'Riemann', specs, inst_attrs=IG)
+
+
 def main(argv):
     out = os.path.join(os.path.dirname(os.path.dirname(os.path.abspath(__file__))), 'coq', 'gen')
     names = []
